@@ -30,6 +30,10 @@ type C15Case struct {
 	Elsewhere bool `json:"config_elsewhere,omitempty"`
 	// Preexist: a file already exists at the path the package goes to ("larger" / "smaller" than the package)
 	Preexist string `json:"preexisting_target,omitempty"`
+	// Invoke: how the command line is written: "" = package -f PATH -t T -p P; "default-config" = no -f (nfpm.yaml in
+	// the working directory); "stdin" = -f - with the document on standard input; "long" = --config=PATH --target=T
+	// --packager=P; "alias-pkg" / "alias-p" = the command's aliases
+	Invoke string `json:"invoke,omitempty"`
 }
 
 var extOf = map[string]string{"deb": ".deb", "rpm": ".rpm", "apk": ".apk", "ipk": ".ipk", "archlinux": ".pkg.tar.zst"}
@@ -147,6 +151,21 @@ func init() {
 					c.Release, c.FormatArch, c.ArchInOverride = "2", arch, true
 					if !yield(C15Case{Part: "name", Format: f, Cfg: c}) {
 						return
+					}
+				}
+			}
+			// other ways of writing the command line: the configuration found under its default name, read from standard
+			// input, long flags with '=', the command's aliases
+			for _, f := range Formats {
+				for _, inv := range []string{"default-config", "stdin", "long", "alias-pkg", "alias-p"} {
+					for _, tg := range []string{"file", "dir", "empty"} {
+						for _, wp := range []bool{true, false} {
+							c := baseMeta()
+							c.Release, c.Prerelease = "2", "rc1"
+							if !yield(C15Case{Part: "cli", Format: f, Cfg: c, Target: tg, WithP: wp, Invoke: inv}) {
+								return
+							}
+						}
 					}
 				}
 			}
@@ -469,6 +488,26 @@ func checkC15(env *engine.Env, ci any) engine.Outcome {
 	if c.WithP {
 		args = append(args, "-p", f)
 	}
+	var stdin []byte
+	switch c.Invoke {
+	case "default-config":
+		args = append([]string{"package"}, args[3:]...) // nfpm.yaml of the working directory
+	case "stdin":
+		args[2] = "-"
+		stdin = []byte(text)
+	case "long":
+		args = []string{"package", "--config=" + args[2]}
+		if target != "" {
+			args = append(args, "--target="+target)
+		}
+		if c.WithP {
+			args = append(args, "--packager="+f)
+		}
+	case "alias-pkg":
+		args[0] = "pkg"
+	case "alias-p":
+		args[0] = "p"
+	}
 	if c.Preexist != "" && !wantFail {
 		n := 4 << 20
 		if c.Preexist == "smaller" {
@@ -481,6 +520,9 @@ func checkC15(env *engine.Env, ci any) engine.Outcome {
 	cmd.Dir = work
 	var so, se bytes.Buffer
 	cmd.Stdout, cmd.Stderr = &so, &se
+	if stdin != nil {
+		cmd.Stdin = bytes.NewReader(stdin)
+	}
 	runErr := cmd.Run()
 	out.Transitions++
 	// what exists now?
@@ -494,7 +536,7 @@ func checkC15(env *engine.Env, ci any) engine.Outcome {
 		return nil
 	})
 	sort.Strings(created)
-	out.Key = fmt.Sprintf("%s:%s:%v:%v:%s:exit=%v:%v", f, c.Target, c.WithP, c.Elsewhere, c.Preexist, runErr != nil, created)
+	out.Key = fmt.Sprintf("%s:%s:%v:%v:%s:%s:exit=%v:%v", f, c.Target, c.WithP, c.Elsewhere, c.Preexist, c.Invoke, runErr != nil, created)
 	if wantFail {
 		if runErr == nil {
 			viol("cli:should-fail:"+c.Target+":"+f, "nfpm %v exited 0; expected an error (stdout %q)", args, so.String())
